@@ -83,6 +83,14 @@ func typecaseMatch(sym slip.Symbol, key slip.Object) bool {
 	if strings.EqualFold("null", string(sym)) && key == nil {
 		return true
 	}
+	if key == nil {
+		// nil has no Hierarchy method to call: it is the empty list and the symbol nil
+		switch strings.ToLower(string(sym)) {
+		case "list", "symbol", "sequence", "atom", "t":
+			return true
+		}
+		return false
+	}
 	for _, h := range key.Hierarchy() {
 		if strings.EqualFold(string(h), string(sym)) {
 			return true
